@@ -11,7 +11,7 @@ from ..absval import Undecided, linform, truth_table, Lin
 from ..core import (AnalysisError, alpha, call_name, const, dotted, is_const, kwarg, local_defs,
                     norm, origin, parent_map, walk_local, arg)
 from ..pattern import pmatch, pfind
-from ..facts import (default_of, guards_of, list_literal_strs, mentions, recv_calls,
+from ..facts import (param_default, default_of, guards_of, list_literal_strs, mentions, recv_calls,
                      returns_of, unpack_of, enclosing_loops)
 
 ITSC = "synkit/Graph/ITS/its_construction.py"
@@ -67,12 +67,8 @@ def writer_schema(rep):
     na = kwarg(calls[0], "node_attrs")
     wl = list_literal_strs(origin(wdefs, na)) if na is not None else None
     # default inside construct
-    cl = None
-    for st in walk_local(cons.node):
-        if isinstance(st, ast.If) and norm(st.test) == "node_attrs is None":
-            for a in st.body:
-                if isinstance(a, ast.Assign) and norm(a.targets[0]) == "node_attrs":
-                    cl = list_literal_strs(a.value)
+    dv_ = param_default(cons.node, "node_attrs")
+    cl = list_literal_strs(dv_) if dv_ is not None else None
     if cl is None:
         rep.ob("O1.1", "R3a", cons, None, "node_attrs default", "cannot find the default typesGH attribute order in construct")
         raise AnalysisError("typesGH writer order not found")
@@ -493,7 +489,11 @@ def pipeline(rep):
         its_p = fi.params[2]
         ok_rc = pmatch(f"get_rc({its_p})", rcsrc) is not None
         built = [d_ for d_ in defs.get(its_p, []) if d_.kind == "assign"]
-        ok_rc = ok_rc and all(pmatch(f"ITSConstruction().ITSGraph({rp[0]}, {rp[1]})", d_.value) is not None for d_ in built)
+        # the only re-binding of `its` is its default: the ITS of these two graphs when the caller passed none
+        dv_ = param_default(fi.node, its_p)
+        ok_rc = ok_rc and all(pmatch(f"ITSConstruction().ITSGraph({rp[0]}, {rp[1]})", d_.value) is not None
+                              or (dv_ is not None and pmatch(f"ITSConstruction().ITSGraph({rp[0]}, {rp[1]})", dv_) is not None
+                                  and pmatch(f"$$v if {its_p} is None else {its_p}", d_.value) is not None) for d_ in built)
     rep.ob("O1.6", "PIPE", fi, ok and ok_rc, alpha(src, fi.node),
            "the hydrogens kept explicit are the hydrogens of get_rc(its) for this reaction's own ITS (the one definition of the reaction centre, "
            "including unchanged H-H bonds), and both sides receive the same list")
